@@ -331,7 +331,7 @@ func ruleDictKeepsAll(c *eng.Ctx) {
 // R10.8 [C10]
 func ruleFilterPageIndex(c *eng.Ctx) {
 	const R = "R10.8-FILTER-PAGE-INDEX"
-	c.Rule(R, "every call of HeaderFooterResult.FilterFragments in the Extractor passes the source page index of the page at hand (an element of the resolved page list or the page record's index), never the position inside the selection: with a page selection the two differ and the regions of another page are applied", 6, 0)
+	c.Rule(R, "every call of HeaderFooterResult.FilterFragments in the Extractor passes the source page index of the page at hand (an element of the resolved page list or the page record's index), never the position inside the selection and never a 1-based page number: the detected regions are keyed by 0-based source page index", 6, 0)
 	for _, fn := range c.P.ModuleFuncs() {
 		if fn.Pkg == nil || eng.ShortPath(fn.Pkg.Pkg.Path()) != "" {
 			continue
@@ -343,13 +343,12 @@ func ruleFilterPageIndex(c *eng.Ctx) {
 			key := fmt.Sprintf("%s#FilterFragments%d", eng.FuncName(fn), n)
 			_, isInd := eng.Induction(arg)
 			_, isConst := eng.ConstInt(arg)
+			// any arithmetic on the way (index+1: a 1-based page number) is not the 0-based source index either
 			derivedFromCounter := false
-			if b, ok := arg.(*ssa.BinOp); ok {
-				if _, i1 := eng.Induction(b.X); i1 {
-					derivedFromCounter = true
-				}
+			if _, ok := arg.(*ssa.BinOp); ok {
+				derivedFromCounter = true
 			}
-			c.Check(!isInd && !isConst && !derivedFromCounter, R, key, ci.Pos(), "page index is the source page number", "the page index passed to the header/footer filter is the loop position, not the source page: under a page selection the wrong page's regions are removed")
+			c.Check(!isInd && !isConst && !derivedFromCounter, R, key, ci.Pos(), "page index is the source page number", "the page index passed to the header/footer filter is a loop position or a computed (1-based) number, not the 0-based source page index: the regions of another page are applied")
 		}
 	}
 }
